@@ -214,8 +214,9 @@ class RFloat:
         u = q(U)
         c.add(z3.Or(z3.And(exact >= 0, err <= u * exact, err >= -u * exact),
                     z3.And(exact < 0, err <= -u * exact, err >= u * exact)))
-        if mag <= 2**53 and not _has_real_var(exact):
-            c.add(z3.Implies(z3.IsInt(exact), err == 0))  # integers up to 2^53 are representable
+        if mag <= 2**53:
+            # an exact result that is an integer of magnitude <= 2^53 is representable, hence returned exactly
+            c.add(z3.Implies(z3.IsInt(exact), err == 0))
         c.notes["roundings"] = c.notes.get("roundings", 0) + 1
         return RFloat(exact + err, lo - eps, hi + eps)
 
